@@ -9,7 +9,7 @@ Import ListNotations.
 (* every well-formed model state is related to some specification state *)
 Lemma R_exists s : wf_st s -> exists ss, R s ss.
 Proof.
-  induction s as [e m|o|o u IH|p u IH|u IH]; cbn [wf_st]; intros W.
+  induction s as [e m|o|o u IH|p u IH|u IH|o i u IH]; cbn [wf_st]; intros W.
   - exists (SEng m). cbn. tauto.
   - exists (SEng (merge_overlay o [])). cbn. tauto.
   - destruct W as (So & Wo & Wu). destruct (IH Wu) as [su Ru].
@@ -17,6 +17,9 @@ Proof.
     intros k. symmetry. now apply lastw_flu_ops.
   - destruct W as (Wp & Wu). destruct (IH Wu) as [su Ru]. exists (STab p su). cbn. tauto.
   - destruct (IH W) as [su Ru]. exists (SSyn su). exact Ru.
+  - destruct W as (So & Wo & Wu). destruct (IH Wu) as [su Ru].
+    exists (SLzy (flu_ops o) i su). cbn. repeat split; auto.
+    intros k. symmetry. now apply lastw_flu_ops.
 Qed.
 
 Lemma tv_kv_write p ops : forall m, sm_sorted m ->
@@ -30,11 +33,12 @@ Qed.
 
 Lemma sview_swrite s : forall ss ops, R s ss -> sview (swrite ss ops) = kv_write (sview ss) ops.
 Proof.
-  induction s as [e m|o|o u IH|p u IH|u IH]; intros [m'|log su|p' su|su] ops; cbn [R]; try tauto.
+  induction s as [e m|o|o u IH|p u IH|u IH|o i u IH]; intros [m'|log su|p' su|su|log i' su] ops; cbn [R]; try tauto.
   - intros _. cbn. unfold kv_overlay_view, kv_write. now rewrite fold_left_app.
   - intros (-> & Wp & Ru). cbn. rewrite (IH _ _ Ru). apply tv_kv_write.
     rewrite <- (R_view _ _ Ru). apply view_sorted. eapply R_wf; eauto.
   - intros Ru. cbn. now apply IH.
+  - intros _. cbn. unfold kv_overlay_view, kv_write. now rewrite fold_left_app.
 Qed.
 
 (* writes (direct puts/deletes and batch writes) act on the view as on the abstract map *)
@@ -72,6 +76,17 @@ Qed.
 
 Theorem view_drop o u : view (st_drop (Flu o u)) = view u.
 Proof. reflexivity. Qed.
+
+(* LazyFlushable: the parent counts as empty until the first Flush, which installs the produced
+   store and writes the overlay into it *)
+Theorem view_lazy_flush ideal o i u : wf_st (Lzy o i u) ->
+  exists u', st_flush ideal (Lzy o i u) = Lzy [] true u' /\ view u' = merge_overlay o (view u) /\ wf_st u'.
+Proof.
+  intros (So & Wo & Wu). exists (st_flush_into ideal u o). split; [reflexivity|].
+  rewrite st_flush_into_write.
+  destruct (view_write u (flu_ops o) Wu (flu_ops_wf o Wo)) as [E W'].
+  split; auto. rewrite E. apply kv_write_flu_ops; auto using view_sorted.
+Qed.
 
 (* ---------- tables: writes touch only their prefix; incomparable tables are isolated ---------- *)
 
